@@ -270,7 +270,8 @@ func verifRefReaches(sev checks.Severity, rank int) bool {
 }
 
 // VerifHarness_Exit: parameters cmd (0 lint, 1 ci), n (reports returned by checkRules), fo / ms (mode of --fail-on /
-// --min-severity, see verifSeverityFlag; 6 = symbolic), owner (1: --require-owner, the real verifyOwners adds a Bug).
+// --min-severity, see verifSeverityFlag; 6 = symbolic), owner (1: --require-owner, the real verifyOwners adds a Bug),
+// fold (which reports may fold as duplicates, see below).
 func VerifHarness_Exit() {
 	verifEnv.ci = verifParam("cmd") == 1
 	verifEnv.failOn = verifSeverityFlag("failOn", verifParam("fo"))
@@ -291,7 +292,16 @@ func VerifHarness_Exit() {
 		r.Rule.Lines.First = i + 1
 		r.Rule.Lines.Last = i + 1
 		r.Problem.Reporter = "x"
-		r.Problem.Summary = "s"
+		// which reports can fold as duplicates of each other (same reporter, summary and severity): fold 0 = any two,
+		// 1 = none (distinct summaries), 2 = only inside the pairs {0,1} and {2,3}
+		switch verifParam("fold") {
+		case 0:
+			r.Problem.Summary = "s"
+		case 1:
+			r.Problem.Summary = "s" + verifItoa(i)
+		default:
+			r.Problem.Summary = "s" + verifItoa(i/2)
+		}
 		r.Problem.Severity = checks.Severity(verifInt("sev" + verifItoa(i))) // the whole int range
 		r.IsDuplicate = verifBool("dup" + verifItoa(i))
 		verifEnv.reports = append(verifEnv.reports, r)
